@@ -166,3 +166,69 @@ Example C09_concrete_overwrite :
   c09_case_held false sc ORaise false true HOther = 2 + 32 + 128 + 512 /\
   c09_case_held true sc ORaise false true HOther = 1 + 2 + 32 + 64 + 128 + 256 + 512.
 Proof. vm_compute. repeat split; reflexivity. Qed.
+
+(* ---------- call options (progress display, units, chunk size, probe size) are not part of the scenario ---------- *)
+(* the progress display hands on every chunk, in order, and stops the way its source stops *)
+Theorem C09_progress_display_transparent : forall s, fst (indicator s) = s.
+Proof. exact indicator_transparent. Qed.
+Print Assumptions C09_progress_display_transparent.
+
+Theorem C09_progress_display_lines : forall xs e,
+  snd (indicator (xs, e)) = seq 1 (length xs) ++ match e with SEnd => [length xs] | SErr => [] end.
+Proof. exact indicator_display. Qed.
+Print Assumptions C09_progress_display_lines.
+
+(* with the display on, the pipeline (either algorithm, sequential run, every reachable state and every scheduled
+   run of the parallel mode) is the pipeline of the same scenario: all theorems above apply unchanged *)
+Theorem C09_options_do_not_matter : forall v sc,
+  seq_run v (with_progress sc) = seq_run v sc /\
+  (forall s, reach v (with_progress sc) s <-> reach v sc s) /\
+  (forall pol, run v (with_progress sc) pol = run v sc pol).
+Proof. exact options_do_not_matter. Qed.
+Print Assumptions C09_options_do_not_matter.
+
+(* any wrapper of the chunk iterator that lets the reader's error through leaves the scenario as it is *)
+Theorem C09_error_preserving_wrapper_harmless : forall w sc,
+  (forall s, snd (w s) = snd s) -> through w sc = sc.
+Proof. exact error_preserving_wrapper_harmless. Qed.
+Print Assumptions C09_error_preserving_wrapper_harmless.
+
+(* a display that ends the stream when its source raised: for EVERY scenario whose only defect is a reader fault
+   at chunk c the call has to raise, yet the repaired pipeline returns a catalog of the first c chunks, in
+   sequential mode and in every interleaving of the parallel mode, and the statement is violated *)
+Theorem C09_swallowing_display_returns_truncated : forall sc c,
+  reader_fault_at sc = Some c -> early sc = false -> empty_centre sc = false -> initok sc = true ->
+  must_raise sc = true /\
+  fst (seq_run v_fix (with_swallowing_progress sc)) = Return (firstn c (input sc), true) /\
+  (forall s, reach v_fix (with_swallowing_progress sc) s -> final s = true ->
+             outcome_of s = Return (firstn c (input sc), true)) /\
+  (forall d untouched opens, spec_ok sc (model_obs sc (Return d)) untouched opens = false).
+Proof. exact swallowing_display_returns_truncated. Qed.
+Print Assumptions C09_swallowing_display_returns_truncated.
+
+Theorem C09_swallowing_display_refuted : exists sc,
+  (forall s, reach v_fix sc s -> final s = true -> outcome_of s = Raise) /\
+  fst (seq_run v_fix sc) = Raise /\
+  (forall s, reach v_fix (with_swallowing_progress sc) s -> final s = true ->
+             exists d, outcome_of s = Return (d, true) /\ d <> input sc) /\
+  (exists d, fst (seq_run v_fix (with_swallowing_progress sc)) = Return (d, true) /\ d <> input sc).
+Proof. exact swallowing_display_refuted. Qed.
+Print Assumptions C09_swallowing_display_refuted.
+
+(* non-vacuity: a NaN in the middle one of three chunks.  With the display as it is the scenario is unchanged and
+   the call raises in both modes; behind the swallowing display both modes return the first chunk only and leave
+   it on disk; that observation (returned other data, path modified, opens, holds other data) fails the statement
+   (flags 1, 3, 9) and follows neither model of the scenario (flags 0, 6, 7, 8): checker code 971. *)
+Example C09_concrete_options :
+  let sc := mk_scen 3 (mk_fault InReader 1 NonFinite) TAbsent false false false in
+  with_progress sc = sc /\
+  indicator (reader_stream sc) = (([1], SErr), [1]) /\
+  indicator ([1; 2; 3], SEnd) = (([1; 2; 3], SEnd), [1; 2; 3; 3]) /\
+  indicator_return_in_finally 3 (reader_stream sc) = (([1], SEnd), [1]) /\
+  par_all v_fix sc = Some (Raise, TDir false [1] false) /\
+  seq_run v_fix (with_swallowing_progress sc) = (Return ([1], true), TDir false [1] true) /\
+  par_all v_fix (with_swallowing_progress sc) = Some (Return ([1], true), TDir false [1] true) /\
+  c09_case_held false sc (ORet ROther true) false true HOther = 1 + 2 + 8 + 64 + 128 + 256 + 512 /\
+  c09_case_held true sc (ORet ROther true) false true HOther = 1 + 2 + 8 + 64 + 128 + 256 + 512 /\
+  c09_case_held true sc ORaise false false HClosed = 64.
+Proof. vm_compute. repeat split; reflexivity. Qed.
